@@ -302,13 +302,16 @@ fn add_case(cx: &mut Ctx, family: &str, w: &World, c: &KCase) {
     // (edge-oriented: from the end vertex of the origin edge, where the vertex-oriented run starts)
     let pi_source = if c.edge { w.edges.get(c.source).map(|e| e.1).unwrap_or(usize::MAX) } else { c.source };
     let pi = true_dist(w, Dir::Reverse, pi_source);
+    // with turn costs the objective depends on the previous edge: least total cost of a walk from the source that ENDS
+    // with each edge (Bellman-Ford over consecutive edge pairs), the checker's certificate for "first is least-cost"
+    let pie: Vec<Option<f64>> = if w.turn.is_empty() || c.edge { vec![] } else { edge_potentials(w, c.source) };
     let world = coq_world(w, NumKind::F);
     let kq = coq_kq(c);
     let terms = vec![
         format!("KR.line_M{}F {} {}%Z {} {} {}", if c.edge { "E" } else { "" }, default_fuel(w), id, world, kq, DETAIL),
         format!(
             "KR.line_S{} {}%Z {} {} {} {} {} {} {} {}",
-            if c.edge { "E".to_string() } else { format!("G {} {}", coq_bool(c.fold), default_fuel(w)) },
+            if c.edge { "E".to_string() } else { format!("G {} {} {}", coq_bool(c.fold), default_fuel(w), coq_list(&pie, |x| coq_opt(x, |f| coq_f64(*f)))) },
             id,
             world,
             kq,
@@ -359,6 +362,40 @@ fn add_case(cx: &mut Ctx, family: &str, w: &World, c: &KCase) {
         st.mark_nontrivial(&format!("{}|{}", world_to_json(w), case_to_json(c)));
     }
     st.case(terms, vec![line], desc);
+}
+
+fn edge_potentials(w: &World, s: usize) -> Vec<Option<f64>> {
+    let m = w.edges.len();
+    let turn: std::collections::HashMap<(usize, usize), f64> = w.turn.iter().map(|(a, b, c)| ((*a, *b), *c)).collect();
+    let mut d: Vec<Option<f64>> = (0..m).map(|e| if w.edges[e].0 == s { Some(w.cost[e]) } else { None }).collect();
+    for _ in 0..m + 1 {
+        let mut changed = false;
+        for e in 0..m {
+            if let Some(de) = d[e] {
+                for f in 0..m {
+                    if w.edges[e].1 == w.edges[f].0 {
+                        let cand = de + turn.get(&(e, f)).copied().unwrap_or(0.0) + w.cost[f];
+                        if d[f].map_or(true, |x| cand < x) {
+                            d[f] = Some(cand);
+                            changed = true;
+                        }
+                    }
+                }
+            }
+        }
+        if !changed {
+            break;
+        }
+    }
+    d
+}
+
+/// two routes 0-1-3 (5+5, no turn charge: total 10) and 0-2-3 (4.5+4.5 plus a turn charge of 5: total 14): the second has the
+/// smaller traversal-only share (9 against 10) and the larger total cost
+fn turn_penalty() -> World {
+    let mut w = World::new(4, vec![(0, 1), (1, 3), (0, 2), (2, 3)], vec![5.0, 5.0, 4.5, 4.5]);
+    w.turn = vec![(2, 3, 5.0)];
+    w
 }
 
 fn base_case(alg: KAlg, k: usize, s: usize, t: usize) -> KCase {
@@ -446,6 +483,14 @@ fn boundary_cases() -> Vec<(String, World, KCase)> {
     c.query_wf = Some(10.0);
     c.optimal = false;
     out.push(("sv_lured_query_weight_factor".into(), lured(10.0), c));
+    // ---- an access model that charges turns: the alternative has the smaller traversal-only share but the larger total ----
+    for k in 1..=3 {
+        for sim in [None, Some(Sim::EdgeId(3))] {
+            let mut c = base_case(KAlg::SingleVia, k, 0, 3);
+            c.sim = sim;
+            out.push((format!("sv_turn_penalty_k{}_{:?}", k, sim), turn_penalty(), c));
+        }
+    }
     // ---- link lengths below one unit: the product of the route norms is below 1 ----
     for sim in [Sim::AcceptAll, Sim::Distance(1), Sim::Distance(2), Sim::Distance(3), Sim::Distance(4), Sim::EdgeId(2)] {
         let mut c = base_case(KAlg::SingleVia, 4, 0, 7);
